@@ -366,7 +366,7 @@ def step (d : Drv) (cmd : List Sexp) : Drv × String :=
     | some r =>
       if r.engine.kind == .sql then (d, "bad-exec") else
       let s0 := { d.st with log := [] }
-      match (exec d.sigma r.engine r).run s0 with
+      match exec d.sigma r.engine r s0 with
       | .error e => (d, errLine e)
       | .ok (it, s1) =>
         let execLog := s1.log
@@ -432,7 +432,7 @@ def step (d : Drv) (cmd : List Sexp) : Drv × String :=
           let wf := f.wfOn tcols && c.second.wfOn first_rel.columns && (c.done || nw.wfOn second_rel.columns)
           let univ := d.env.tags
           let run (x : Rel) : String :=
-            match (exec d.sigma x.engine x).run { d.st with log := [] } with
+            match exec d.sigma x.engine x { d.st with log := [] } with
             | .error e => errLine e
             | .ok (it, _) =>
               match iterate d.sigma it [] with
